@@ -168,8 +168,15 @@ def _judge_one(case, kind, wi, acc):
                 acc.sig(mon_graph.shape(s), min(ext, 3), kind, len(sel) if sel else 0, ext_same_id)
             try:
                 form = 'none' if kind == 'clone' else (case.get('sel_form') or ('list' if len(sel) > 1 or case['sel_as_list'] else 'single'))
-                arg = {'none': lambda: None, 'list': lambda: list(sel), 'tuple': lambda: tuple(sel), 'single': lambda: sel[0] if len(sel) == 1 else list(sel),
-                       'generator': lambda: (x for x in sel), 'filter': lambda: filter(lambda x: True, sel),
+                given = list(sel or [])
+                if kind == 'subtree' and case.get('sel_repeat') and form in ('list', 'tuple', 'generator', 'filter'):
+                    # the same task named twice is still that one task ("exactly the given tasks and their descendants")
+                    # (named twice in a row, so that the order of the roots does not depend on which mention counts)
+                    k_ = case['sel_repeat'] % len(sel)
+                    given = list(sel[:k_ + 1]) + list(sel[k_:])
+                    acc.count('selections_naming_a_task_twice')
+                arg = {'none': lambda: None, 'list': lambda: list(given), 'tuple': lambda: tuple(given), 'single': lambda: sel[0] if len(sel) == 1 else list(sel),
+                       'generator': lambda: (x for x in given), 'filter': lambda: filter(lambda x: True, given),
                        'tasklist': lambda: w.tasks(lambda t, ids={id(x) for x in sel}: id(t) in ids) if _dfs_ordered(w, sel) else list(sel)}[form]()
                 c = w.clone() if kind == 'clone' else w.subtree(arg)
             except Exception as e:
@@ -322,7 +329,8 @@ def gen_case(rnd, tier='quick'):
     tail = [[rnd.choice(TAIL_OPS), rnd.randrange(50), rnd.randrange(50)] for _ in range(rnd.randint(4, 8))]
     return {'kind': 'clone', 'spec': spec, 'attrs': attrs, 'wattrs': wattrs, 'ops': ops, 'kinds': ['clone', 'subtree'],
             'sel': [[rnd.randrange(50) for _ in range(rnd.randint(1, 3))] for _ in range(3)], 'sel_as_list': rnd.random() < 0.7, 'tail': tail,
-            'sel_form': rnd.choice([None, None, 'list', 'tuple', 'generator', 'filter', 'tasklist']), 'empty_selection': rnd.random() < 0.08}
+            'sel_form': rnd.choice([None, None, 'list', 'tuple', 'generator', 'filter', 'tasklist']), 'empty_selection': rnd.random() < 0.08,
+            'sel_repeat': rnd.randint(1, 3) if rnd.random() < 0.2 else 0}
 
 
 def run_shard(prop, tier, seed, shard, nshards, budget, acc):
